@@ -258,8 +258,9 @@ def run_histories(ctx, nhist):
             cd = dict(zip(HCOUNTS, counts))
             # a branch decided by rounding (norm within 1e-9 of its threshold), or a pinv / lstsq cut
             # next to a singular value: neither side is determined; counted, not compared
-            if cd["borderline_branch_decisions"] or diag["border"] or diag["trunc"]:
+            if cd["borderline_branch_decisions"] or diag["border"] or diag["trunc"] or diag.get("noise_fired"):
                 stats["segments_skipped_borderline_or_rcond"] += 1
+                stats["segments_skipped_guard_fired_on_rounding_noise"] += bool(diag.get("noise_fired"))
                 segs_ok = False
                 continue
             for name, v in zip(HCOUNTS, counts):
